@@ -53,6 +53,38 @@ Theorem C04_strip_reads_zero : forall fields ge ndb h la t f,
 Proof. exact strip_reads_zero. Qed.
 Print Assumptions C04_strip_reads_zero.
 
+(* irregular 3D sources (n traces sorted inline-major on an n_il x n_xl grid with an empty cell, inline numbers non-zero):
+   the same four statements through the reader's mask path (stored inline array <> 0, values[mask][t]) *)
+Theorem C04_irregular_exhaustive_preserves : forall fields n_il n_xl bs0 n ndb ili xli h la t f,
+  wf_fields fields = true -> In hx_rd_mask_field fields ->
+  irregular_ok hx_rd_mask_field n_il n_xl bs0 n ili xli h -> 0 <= t < n -> In f fields ->
+  read_field fields (write_geo Exhaustive fields (geo_irregular n_il n_xl bs0 n ili xli) ndb h) la t f = Return (h t f).
+Proof. exact irregular_exhaustive_preserves. Qed.
+Print Assumptions C04_irregular_exhaustive_preserves.
+Theorem C04_irregular_thorough_preserves : forall fields n_il n_xl bs0 n ndb ili xli h la t f,
+  wf_fields fields = true -> In hx_rd_mask_field fields ->
+  irregular_ok hx_rd_mask_field n_il n_xl bs0 n ili xli h -> 0 <= t < n -> In f fields ->
+  read_field fields (write_geo Thorough fields (geo_irregular n_il n_xl bs0 n ili xli) ndb h) la t f = Return (h t f).
+Proof. exact irregular_thorough_preserves. Qed.
+Print Assumptions C04_irregular_thorough_preserves.
+(* 'heuristic' additionally needs the inline number to differ between the first and the last trace (else the field the
+   mask is read from is not stored) *)
+Theorem C04_irregular_heuristic_preserves : forall fields n_il n_xl bs0 n ndb ili xli h la t f,
+  wf_fields fields = true -> In hx_rd_mask_field fields ->
+  irregular_ok hx_rd_mask_field n_il n_xl bs0 n ili xli h ->
+  const_or_ends_differ fields n h = true -> no_coinciding_pair fields n h = true ->
+  h 0 hx_rd_mask_field <> h (n - 1) hx_rd_mask_field ->
+  0 <= t < n -> In f fields ->
+  read_field fields (write_geo Heuristic fields (geo_irregular n_il n_xl bs0 n ili xli) ndb h) la t f = Return (h t f).
+Proof. exact irregular_heuristic_preserves. Qed.
+Print Assumptions C04_irregular_heuristic_preserves.
+Theorem C04_irregular_strip_reads_zero : forall fields n_il n_xl bs0 n ndb ili xli h la t f,
+  wf_fields fields = true -> In hx_rd_mask_field fields ->
+  irregular_ok hx_rd_mask_field n_il n_xl bs0 n ili xli h -> 0 <= t < n -> In f fields ->
+  read_field fields (write_geo Strip fields (geo_irregular n_il n_xl bs0 n ili xli) ndb h) la t f = Return 0.
+Proof. exact irregular_strip_reads_zero. Qed.
+Print Assumptions C04_irregular_strip_reads_zero.
+
 (* the whole dictionary gen_trace_header(t) *)
 Theorem C04_exhaustive_dict : forall fields ge ndb h la t,
   wf_fields fields = true -> regular_or_2d ge -> 0 <= t < ge_n ge ->
@@ -141,3 +173,8 @@ Proof.
   split; [right; exists 129, 16; repeat split; discriminate|].
   vm_compute. repeat split; reflexivity.
 Qed.
+(* an irregular source meeting irregular_ok: 2 x 3 grid, 4 traces at cells 0, 2, 3, 5 (cells 1 and 4 empty) *)
+Example C04_nonvacuous_irregular :
+  irregular_ok hx_rd_mask_field 2 3 4 4 (fun t => nth (Z.to_nat t) [0; 0; 1; 1] 0) (fun t => nth (Z.to_nat t) [0; 2; 0; 2] 0)
+               (hdr_of_cols [(189, [10; 10; 13; 13]); (193, [20; 24; 20; 24])]).
+Proof. exact irregular_example_ok. Qed.
